@@ -509,6 +509,50 @@ def integration_length(chk, prog):
         chk.error("COUNT.len: no return of integrate_angular_positions has a decidable length")
 
 
+TOTAL_CONVERTERS = ["ahrs/common/quaternion.py::QuaternionArray.from_rpy"]
+
+
+def total_converters(chk, prog):
+    """VALUE-RAISE: the array converter the integration mode of AngularRate and Complementary.Q hand their integrated angles to accepts every real angle: an
+    integrated angle grows without bound, so a `raise` guarded by the VALUES of the data (as opposed to their shape, rank or type) turns a long enough history into
+    an exception instead of one attitude per sample."""
+    for ref in TOTAL_CONVERTERS:
+        f = prog.func(ref)
+        chk.touch(f)
+        params = set(f.params[1:] if f.cls is not None else f.params)
+        # locals that are copies / conversions of the data parameters
+        data = set(params)
+        for _ in range(3):
+            for s in ast.walk(f.node):
+                if isinstance(s, ast.Assign) and len(s.targets) == 1 and isinstance(s.targets[0], ast.Name) and any(isinstance(x, ast.Name) and x.id in data for x in ast.walk(s.value)):
+                    data.add(s.targets[0].id)
+
+        def value_use(test):
+            """a data name used otherwise than through .shape / .ndim / .dtype / .size / len() / isinstance()"""
+            shape_only = set()
+            for x in ast.walk(test):
+                if isinstance(x, ast.Attribute) and x.attr in ("shape", "ndim", "dtype", "size") and isinstance(x.value, ast.Name):
+                    shape_only.add(id(x.value))
+                if isinstance(x, ast.Call) and isinstance(x.func, ast.Name) and x.func.id in ("len", "isinstance", "type") and x.args and isinstance(x.args[0], ast.Name):
+                    shape_only.add(id(x.args[0]))
+            return next((x for x in ast.walk(test) if isinstance(x, ast.Name) and x.id in data and id(x) not in shape_only), None)
+        n = 0
+        for s in ast.walk(f.node):
+            if isinstance(s, ast.If) and any(isinstance(b, ast.Raise) for b in s.body):
+                n += 1
+                u = value_use(s.test)
+                site = "%s::if %s" % (ref, ast.unparse(s.test)[:50])
+                if u is None:
+                    chk.record("VALUE-RAISE", site, "the rejection depends on the shape / rank / type of the input only")
+                else:
+                    why = ("`%s` raises when `%s`: the test looks at the VALUES of the angles; integrated angular positions exceed any fixed bound after a long enough history, and the "
+                           "integration mode then raises instead of returning one attitude per sample" % (f.qname, ast.unparse(s.test)[:60]))
+                    chk.record("VALUE-RAISE", site, "no rejection by the values of the data", verdict="VIOLATION", detail=why)
+                    chk.finding("VALUE-RAISE", f.module.rel, f.qname, "raise under `%s`" % ast.unparse(s.test)[:60], why, line=s.lineno)
+        if n == 0:
+            chk.record("VALUE-RAISE", ref, "no raise in the converter")
+
+
 def api_rule(chk, prog):
     n = 0
     for f in prog.all_funcs():
@@ -576,6 +620,7 @@ def run(chk, prog, tier):
     count_rule(chk, prog)
     api_rule(chk, prog)
     integration_length(chk, prog)
+    total_converters(chk, prog)
     from props.c05 import madgwick_guard
     madgwick_guard(chk, prog)       # finiteness at the exact truth: the gradient is normalised only where the objective is non-zero
     chk.require_count("COUNT.loop", 14)
